@@ -259,6 +259,8 @@ struct Var {
     rename: Option<&'static str>,
     values: Vec<String>,
     values2: Vec<String>,
+    /// fields of this kind are declared with the enum's type parameter `G`
+    gk: Option<K>,
 }
 
 impl Var {
@@ -271,12 +273,13 @@ impl Var {
     }
     fn decl(&self) -> String {
         let id = self.ident();
+        let ty = |f: &Field| if Some(f.kind) == self.gk { "G" } else { f.kind.ty() };
         match self.shape {
             Shape::Unit => id,
             Shape::EmptyTuple => format!("{id}()"),
             Shape::EmptyBrace => format!("{id} {{}}"),
-            Shape::Tuple => format!("{id}({})", self.fields.iter().map(|f| f.kind.ty()).collect::<Vec<_>>().join(", ")),
-            Shape::Named => format!("{id} {{ {} }}", self.fields.iter().map(|f| format!("{}: {}", f.member, f.kind.ty())).collect::<Vec<_>>().join(", ")),
+            Shape::Tuple => format!("{id}({})", self.fields.iter().map(|f| ty(f)).collect::<Vec<_>>().join(", ")),
+            Shape::Named => format!("{id} {{ {} }}", self.fields.iter().map(|f| format!("{}: {}", f.member, ty(f))).collect::<Vec<_>>().join(", ")),
         }
     }
     fn pat(&self) -> String {
@@ -302,6 +305,12 @@ impl Var {
 }
 
 struct EnumModel {
+    /// the kind declared as the type parameter `G` (`pub enum T<G>`), if any field has it
+    gk: Option<K>,
+    /// 0: enum-level format first, then rename_all; 1: rename_all first
+    attr_order: u8,
+    /// an enum-level `#[attr(bound(..))]` with a trivially true predicate, and where it is written (0 first, 1 last)
+    enum_bound: Option<u8>,
     tr: &'static str,
     attr: &'static str,
     tr_ty: &'static str,
@@ -316,7 +325,7 @@ struct EnumModel {
     ptr_implicit: Vec<String>,
 }
 
-fn own_literal(d: &mut Dice, name: &str, fields: &[Field], tr_ty: &'static str) -> (LitSrc, bool) {
+fn own_literal(d: &mut Dice, name: &str, fields: &[Field], tr_ty: &'static str, gk: Option<K>) -> (LitSrc, bool) {
     let mut l = LitSrc::default();
     let extra = vec![name.to_string(), format!("{name} ")];
     if fields.is_empty() || d.chance(12) {
@@ -326,7 +335,9 @@ fn own_literal(d: &mut Dice, name: &str, fields: &[Field], tr_ty: &'static str) 
         }
         return (l, false);
     }
-    let avail: Vec<Avail> = fields.iter().map(|f| Avail { name: f.name.clone(), tys: f.kind.tys().to_vec(), repr: Some(f.clone()) }).collect();
+    // a field of the enum's type parameter is only referred to directly (display.md: "Bounds can only be inferred this
+    // way if a field is used directly in the interpolation"), never inside an expression
+    let avail: Vec<Avail> = fields.iter().map(|f| Avail { name: f.name.clone(), tys: f.kind.tys().to_vec(), repr: (Some(f.kind) != gk).then(|| f.clone()) }).collect();
     if d.chance(25) {
         // a single bare placeholder: can be substituted by a direct call of the placeholder's trait
         let a = &avail[d.pick(avail.len())];
@@ -362,7 +373,7 @@ fn supports(k: K, ty: &str) -> bool {
     k.tys().contains(&ty)
 }
 
-fn gen_var(d: &mut Dice, i: usize, style: usize, tr_ty: &'static str, mode: Mode, seen: &mut Vec<String>, m_flags: &mut (bool,)) -> Var {
+fn gen_var(d: &mut Dice, i: usize, style: usize, tr_ty: &'static str, mode: Mode, seen: &mut Vec<String>, m_flags: &mut (bool,), gk: Option<K>) -> Var {
     let is_display = tr_ty.is_empty();
     // name: one or two Pascal words, unique within the enum
     let mut words: Vec<&'static str> = vec![WORDS[d.pick(WORDS.len())]];
@@ -414,19 +425,27 @@ fn gen_var(d: &mut Dice, i: usize, style: usize, tr_ty: &'static str, mode: Mode
         }
     }
     let (own, own_substitutable) = if has_own {
-        let (l, s) = own_literal(d, &name, &fields, tr_ty);
+        let (l, s) = own_literal(d, &name, &fields, tr_ty, gk);
         (Some(l), s)
     } else {
         (None, false)
     };
-    let rename = if is_display && nf == 0 && !has_own && d.chance(25) { Some(CASINGS[d.pick(8)]) } else { None };
+    // a variant-level rename_all: decides the name of a field-less variant without own format; next to an own format
+    // it has nothing to rename
+    let rename = if is_display && nf == 0 && !has_own && d.chance(25) {
+        Some(CASINGS[d.pick(8)])
+    } else if is_display && nf == 0 && has_own && d.chance(10) {
+        Some(CASINGS[d.pick(8)])
+    } else {
+        None
+    };
     let values = fields.iter().enumerate().map(|(j, f)| f.kind.value(i + j, d)).collect();
     let values2 = fields.iter().enumerate().map(|(j, f)| f.kind.value(i + j + 1, d)).collect();
-    Var { name, words, raw, shape, fields, own, own_substitutable, rename, values, values2 }
+    Var { name, words, raw, shape, fields, own, own_substitutable, rename, values, values2, gk }
 }
 
 /// fields visible (with a common way of printing them) in every variant of `app`
-fn common_fields(app: &[&Var]) -> Vec<Avail> {
+fn common_fields(app: &[&Var], gk: Option<K>) -> Vec<Avail> {
     let Some(first) = app.first() else { return vec![] };
     let shape = first.shape;
     if !matches!(shape, Shape::Tuple | Shape::Named) || app.iter().any(|v| v.shape != shape) {
@@ -444,7 +463,8 @@ fn common_fields(app: &[&Var]) -> Vec<Avail> {
             continue;
         }
         let uniform = app.iter().all(|v| v.fields[j].kind == first.fields[j].kind);
-        out.push(Avail { name, tys, repr: uniform.then(|| first.fields[j].clone()) });
+        let generic = app.iter().any(|v| Some(v.fields[j].kind) == gk);
+        out.push(Avail { name, tys, repr: (uniform && !generic).then(|| first.fields[j].clone()) });
     }
     out
 }
@@ -474,13 +494,15 @@ fn gen_enum(d: &mut Dice, tr: (&'static str, &'static str, &'static str), mode: 
     let nv = d.range(1, 5);
     let mut seen = vec![];
     let mut flags = (false,);
-    let mut vars: Vec<Var> = (0..nv).map(|i| gen_var(d, i, style, tr_ty, mode, &mut seen, &mut flags)).collect();
+    // fields of one kind may be declared with a type parameter of the enum (`pub enum T<G>`, used as `T<i32>`)
+    let gk0 = if d.chance(25) { Some([K::Int, K::Str, K::Float, K::Size][d.pick(4)]) } else { None };
+    let mut vars: Vec<Var> = (0..nv).map(|i| gen_var(d, i, style, tr_ty, mode, &mut seen, &mut flags, gk0)).collect();
     if mode != Mode::NoShared && nv >= 2 && d.chance(60) {
         // make sure the interesting mixture (with and without own attribute) is frequent
         let with = vars.iter().filter(|v| v.own.is_some()).count();
         if with == 0 {
             let k = d.pick(nv);
-            let (l, s) = own_literal(d, &vars[k].name.clone(), &vars[k].fields.clone(), tr_ty);
+            let (l, s) = own_literal(d, &vars[k].name.clone(), &vars[k].fields.clone(), tr_ty, gk0);
             vars[k].own = Some(l);
             vars[k].own_substitutable = s;
             vars[k].rename = None;
@@ -498,7 +520,7 @@ fn gen_enum(d: &mut Dice, tr: (&'static str, &'static str, &'static str), mode: 
         }
         Mode::Wrap => {
             let app: Vec<&Var> = vars.iter().collect();
-            let avail = common_fields(&app);
+            let avail = common_fields(&app, gk0);
             let nuse = 1 + d.weighted(&[5, 3, 2]);
             let nfld = if avail.is_empty() { 0 } else { d.weighted(&[4, 4, 2]) };
             // interleave: 1 = `_variant`, 0 = field
@@ -538,7 +560,7 @@ fn gen_enum(d: &mut Dice, tr: (&'static str, &'static str, &'static str), mode: 
         }
         Mode::Default => {
             let app: Vec<&Var> = vars.iter().filter(|v| v.own.is_none()).collect();
-            let avail = common_fields(&app);
+            let avail = common_fields(&app, gk0);
             let nfld = if avail.is_empty() { 0 } else { d.weighted(&[3, 5, 3]) };
             if nfld == 0 || d.chance(70) {
                 shared.text(d, &words);
@@ -557,6 +579,64 @@ fn gen_enum(d: &mut Dice, tr: (&'static str, &'static str, &'static str), mode: 
             true
         }
     };
+    if has_shared && matches!(mode, Mode::Wrap | Mode::Default) {
+        // the word `_variant` as text / in escaped braces is not a mention of `_variant`
+        if d.chance(12) {
+            let at = d.pick(shared.pieces.len() + 1);
+            if d.chance(60) {
+                shared.pieces.insert(at, Piece::Close);
+                shared.pieces.insert(at, Piece::Text("_variant".into()));
+                shared.pieces.insert(at, Piece::Open);
+                labels.push("shared_escaped_variant_braces".into());
+            } else {
+                shared.pieces.insert(at, Piece::Text("_variant ".into()));
+                labels.push("shared_text_variant_word".into());
+            }
+            if mode == Mode::Default {
+                labels.push("default_mode_with_variant_word_as_text".into());
+            }
+        }
+        // `self` is available to the enum-level arguments as well
+        if d.chance(10) {
+            if d.chance(50) {
+                shared.positional(d, "self.tag()", Spec::bare(""));
+            } else {
+                shared.alias(d, "self.tag()", Spec::bare(""));
+            }
+            labels.push("shared_uses_self".into());
+        }
+    }
+    let gk = gk0.filter(|k| vars.iter().any(|v| v.fields.iter().any(|f| f.kind == *k)));
+    for v in vars.iter_mut() {
+        v.gk = gk;
+    }
+    if let Some(k) = gk {
+        labels.push("generic_enum".into());
+        if has_shared && shared.pieces.iter().any(|p| match p {
+            Piece::Ph(ph) => {
+                let n = match &ph.arg {
+                    Arg::Name(n) => shared.named.iter().find(|(a, _)| a == n).map(|(_, e)| e.clone()).unwrap_or_else(|| n.clone()),
+                    Arg::Index(i) => shared.pos.get(*i).cloned().unwrap_or_default(),
+                    Arg::Implicit => String::new(),
+                };
+                vars.iter().any(|v| v.fields.iter().any(|f| f.name == n && f.kind == k))
+            }
+            _ => false,
+        }) {
+            labels.push("generic_enum_shared_names_generic_field".into());
+        }
+    }
+    let attr_order = if has_shared && rename_all.is_some() && d.chance(40) { 1 } else { 0 };
+    if attr_order == 1 {
+        labels.push("enum_rename_all_before_format".into());
+    }
+    let enum_bound = if d.chance(8) { Some(d.pick(2) as u8) } else { None };
+    if enum_bound.is_some() {
+        labels.push("enum_level_bound_attribute".into());
+    }
+    if vars.iter().any(|v| v.own.is_some() && v.rename.is_some()) {
+        labels.push("variant_own_format_and_rename_all".into());
+    }
     if has_shared && shared.pos.iter().chain(shared.named.iter().map(|(_, e)| e)).any(|e| e != "_variant" && !e.chars().all(|c| c.is_alphanumeric() || c == '_')) {
         labels.push("shared_expression_argument".into());
     }
@@ -600,25 +680,40 @@ fn gen_enum(d: &mut Dice, tr: (&'static str, &'static str, &'static str), mode: 
     if !ptr_implicit.is_empty() {
         labels.push("pointer_implicit_field_wrapped".into());
     }
-    EnumModel { tr, attr, tr_ty, mode, rename_all, shared: has_shared.then_some(shared), vars, labels, unit_default_nondisplay, ptr_implicit }
+    EnumModel { gk, attr_order, enum_bound, tr, attr, tr_ty, mode, rename_all, shared: has_shared.then_some(shared), vars, labels, unit_default_nondisplay, ptr_implicit }
 }
 
 impl EnumModel {
     fn type_def(&self, derive: &str) -> String {
         let attr = self.attr;
         let mut s = format!("#[derive({derive})]\n");
-        if let Some(sh) = &self.shared {
-            s.push_str(&format!("#[{attr}({})]\n", sh.attr_args()));
+        let bound = format!("#[{attr}(bound(i32: Copy))]\n");
+        if self.enum_bound == Some(0) {
+            s.push_str(&bound);
         }
-        if let Some(c) = self.rename_all {
-            s.push_str(&format!("#[{attr}(rename_all = \"{c}\")]\n"));
+        let fmt = self.shared.as_ref().map(|sh| format!("#[{attr}({})]\n", sh.attr_args())).unwrap_or_default();
+        let ren = self.rename_all.map(|c| format!("#[{attr}(rename_all = \"{c}\")]\n")).unwrap_or_default();
+        if self.attr_order == 1 {
+            s.push_str(&ren);
+            s.push_str(&fmt);
+        } else {
+            s.push_str(&fmt);
+            s.push_str(&ren);
         }
-        s.push_str("pub enum T {\n");
+        if self.enum_bound == Some(1) {
+            s.push_str(&bound);
+        }
+        s.push_str(if self.gk.is_some() { "pub enum T<G> {\n" } else { "pub enum T {\n" });
         for v in &self.vars {
+            // a variant's own rename_all is written before or after its own format
+            let ren_first = v.own.is_some() && v.rename.is_some() && v.name.len() % 2 == 0;
+            if let (true, Some(c)) = (ren_first, v.rename) {
+                s.push_str(&format!("    #[{attr}(rename_all = \"{c}\")]\n"));
+            }
             if let Some(o) = &v.own {
                 s.push_str(&format!("    #[{attr}({})]\n", o.attr_args()));
             }
-            if let Some(c) = v.rename {
+            if let (false, Some(c)) = (ren_first, v.rename) {
                 s.push_str(&format!("    #[{attr}(rename_all = \"{c}\")]\n"));
             }
             s.push_str(&format!("    {},\n", v.decl()));
@@ -670,14 +765,19 @@ impl EnumModel {
             ref_arms.push_str(&format!("            {} => {e},\n", v.pat()));
         }
         let outer = if self.tr_ty.is_empty() { "{}".to_string() } else { format!("{{:{}}}", self.tr_ty) };
+        match self.gk {
+            Some(k) => s.push_str(&format!("pub type TT = T<{}>;\n", k.ty())),
+            None => s.push_str("pub type TT = T;\n"),
+        }
+        let tag_impl = if self.gk.is_some() { "impl<G> T<G> {\n    pub fn tag(&self) -> u32 { 7 }\n}\n" } else { "impl T {\n    pub fn tag(&self) -> u32 { 7 }\n}\n" };
         s.push_str(&format!(
-            "impl T {{\n    pub fn tag(&self) -> u32 {{ 7 }}\n    /// what the variant prints by itself\n    pub fn __own(&self) -> String {{\n        match self {{\n{own_arms}        }}\n    }}\n    /// the documented rule for the enum-level format\n    pub fn __ref(&self) -> String {{\n        match self {{\n{ref_arms}        }}\n    }}\n}}\n"
+            "{tag_impl}impl TT {{\n    /// what the variant prints by itself\n    pub fn __own(&self) -> String {{\n        match self {{\n{own_arms}        }}\n    }}\n    /// the documented rule for the enum-level format\n    pub fn __ref(&self) -> String {{\n        match self {{\n{ref_arms}        }}\n    }}\n}}\n"
         ));
         s.push_str("pub fn run(o: &mut Out) {\n");
         for v in &self.vars {
-            s.push_str(&format!("    {{ let v = {}; o.eq(\"variant {}\", &v.__ref(), &format!(\"{outer}\", v)); }}\n", v.ctor(&v.values), v.name));
+            s.push_str(&format!("    {{ let v: TT = {}; o.eq(\"variant {}\", &v.__ref(), &format!(\"{outer}\", v)); }}\n", v.ctor(&v.values), v.name));
             if !v.fields.is_empty() && v.values2 != v.values {
-                s.push_str(&format!("    {{ let v = {}; o.eq(\"variant {}\", &v.__ref(), &format!(\"{outer}\", v)); }}\n", v.ctor(&v.values2), v.name));
+                s.push_str(&format!("    {{ let v: TT = {}; o.eq(\"variant {}\", &v.__ref(), &format!(\"{outer}\", v)); }}\n", v.ctor(&v.values2), v.name));
             }
         }
         s.push_str("}\n");
@@ -1020,7 +1120,7 @@ fn classify(c: &GenCase, r: &CaseResult, f: &Finding) -> Option<String> {
     None
 }
 
-const RULE: &str = "enums (1..5 variants: unit, empty tuple/brace, one field, 2..3 fields, tuple or named, raw idents; with/without own attribute, own attribute substitutable or not; rename_all on enum/variant) deriving one of the 8 Display-like traits x enum-level format in 4 modes: wrapping (1..3 mentions of `_variant` as `{_variant}`, positional argument, `alias = _variant`, mixed with text, escapes and references to fields common to all variants incl. expressions), default (no `_variant`; fields common to the attribute-less variants), bare `_variant` only, none. Oracle inside the program: own(v) = own attribute via format! | single field under the derived trait | (renamed) name; expected = format!(SHARED, .., _variant = own(v)) when `_variant` is mentioned, else SHARED for attribute-less variants and own(v) for the others; byte-equal to the derived output for one value per variant. Negative cases: `_variant` placeholder with any spec / non-Display type (systematic single-modifier table x 3 forms x 2 traits, plus random multi-modifier specs on generated enums) and enum-level format on derive_more::Debug must be rejected by the compiler; in-process screen of the full spec grid with rustc confirmation. Non-trivial = enum has a variant with and one without own attribute and the enum-level literal has text besides placeholders (or a negative case); distinct by program text";
+const RULE: &str = "enums (1..5 variants: unit, empty tuple/brace, one field, 2..3 fields, tuple or named, raw idents; with/without own attribute, own attribute substitutable or not; rename_all on enum/variant) deriving one of the 8 Display-like traits x enum-level format in 4 modes: wrapping (1..3 mentions of `_variant` as `{_variant}`, positional argument, `alias = _variant`, mixed with text, escapes and references to fields common to all variants incl. expressions), default (no `_variant`; fields common to the attribute-less variants), bare `_variant` only, none; the word `_variant` as plain text / inside escaped braces (not a mention); `self` in the enum-level arguments; the enum optionally generic over the type of some fields (`T<G>`, referred to directly only), rename_all written before the enum-level format, an enum-level bound(..) attribute, a variant with own format and own rename_all. Oracle inside the program: own(v) = own attribute via format! | single field under the derived trait | (renamed) name; expected = format!(SHARED, .., _variant = own(v)) when `_variant` is mentioned, else SHARED for attribute-less variants and own(v) for the others; byte-equal to the derived output for one value per variant. Negative cases: `_variant` placeholder with any spec / non-Display type (systematic single-modifier table x 3 forms x 2 traits, plus random multi-modifier specs on generated enums) and enum-level format on derive_more::Debug must be rejected by the compiler; in-process screen of the full spec grid with rustc confirmation. Non-trivial = enum has a variant with and one without own attribute and the enum-level literal has text besides placeholders (or a negative case); distinct by program text";
 
 pub fn prop() -> DiceProp {
     DiceProp {
@@ -1054,6 +1154,14 @@ pub fn prop() -> DiceProp {
             ("renamed_name_wrapped".into(), 0.02),
             ("neg=variant_spec".into(), 0.05),
             ("neg=debug_enum_level".into(), 0.02),
+            ("shared_escaped_variant_braces".into(), 0.025),
+            ("default_mode_with_variant_word_as_text".into(), 0.02),
+            ("shared_uses_self".into(), 0.03),
+            ("generic_enum".into(), 0.04),
+            ("generic_enum_shared_names_generic_field".into(), 0.006),
+            ("enum_rename_all_before_format".into(), 0.02),
+            ("enum_level_bound_attribute".into(), 0.03),
+            ("variant_own_format_and_rename_all".into(), 0.008),
         ],
         shards: 0,
     }
@@ -1139,8 +1247,44 @@ fn e1_screen(ctx: &Ctx, rep: &mut Report) {
     }
 }
 
+/// The generated inputs that must be rejected are additionally expanded in-process: the rejection has to come from
+/// the derive itself, not from an accident of the generated program (rustc failing for some other reason).
+fn confirm_negatives_inproc(p: &DiceProp, ctx: &Ctx, rep: &mut Report) {
+    use proptest::strategy::ValueTree;
+    let strat = ProgProp::strategy(p, ctx);
+    let (n, _) = ProgProp::budget(p, ctx.tier);
+    let mut runner = ctx.runner(0);
+    let mut cases: Vec<GenCase> = (p.fixed)();
+    cases.extend(draw(&mut runner, &strat, n).into_iter().map(|t| t.current()));
+    let mut seen = std::collections::HashSet::new();
+    let (mut confirmed, mut reported) = (0u64, 0u64);
+    for c in cases {
+        if c.expect_compile || !seen.insert(c.body.clone()) {
+            continue;
+        }
+        if c.labels.iter().any(|l| l == "neg_e1=rejected_for_stated_reason" || l == "neg_e1=rejected_other_reason") {
+            confirmed += 1;
+            continue;
+        }
+        let how = c.labels.iter().find(|l| l.starts_with("neg_e1=")).cloned().unwrap_or_else(|| "neg_e1=?".into());
+        reported += 1;
+        if reported <= 3 {
+            rep.violations.push(Violation {
+                sig: None,
+                summary: format!("an input that must be rejected is not rejected by the derive itself ({how}); the compiler's verdict on the program would be an accident"),
+                case: serde_json::to_value(&c).unwrap_or(Value::Null),
+                expected: "a diagnostic from the derive".into(),
+                observed: how,
+            });
+        }
+    }
+    rep.evidence.add("negatives_confirmed_inproc", confirmed);
+}
+
 pub fn run(ctx: &Ctx) -> Report {
-    let mut rep = super::progprop::run(&prop(), ctx);
+    let p = prop();
+    let mut rep = super::progprop::run(&p, ctx);
+    confirm_negatives_inproc(&p, ctx, &mut rep);
     e1_screen(ctx, &mut rep);
     rep
 }
